@@ -119,7 +119,7 @@ def observe_doc(ctx, text, info, tree, hists):
                      {"doc": text, "ops": [list(op), list(op)], "once": t1, "twice": t2},
                      f"set {p!r} {v!r} twice on {text!r}: {t1!r} then {t2!r} (error {e2})")
     # 2. set fresh then rm restores the text
-    for p in ["zz", '"z z"', "@zz", "@@zz"]:
+    for p in ["zz", '"z z"', "@zz", "@@zz", "@@@zz"]:
         op = ("set", p, "7")
         t1, e1 = try_apply(text, op)
         if t1 is None:
